@@ -39,6 +39,7 @@ fn member_strategy() -> impl Strategy<Value = PoolMember> {
             seed,
             bulk,
             invalid: None,
+            twin_of: None,
         })
 }
 
